@@ -993,3 +993,283 @@ Theorem ksort_spec l : Permutation (ksort l) l /\ StronglySorted kle (ksort l).
 Proof.
   split; [apply ksort_perm|]. induction l as [|x l IH]; simpl; [constructor|apply kinsert_sorted; exact IH].
 Qed.
+
+(* ------------------------------------------------------------------ head *)
+Lemma nth_firstn {A} (l : list A) n i d : i < n -> nth i (firstn n l) d = nth i l d.
+Proof.
+  revert n i. induction l as [|x l IH]; intros n i H; [rewrite firstn_nil; reflexivity|].
+  destruct n as [|n]; [lia|]. destruct i as [|i]; simpl; [reflexivity|]. apply IH. lia.
+Qed.
+
+Lemma map_fst_combine {A B} (a : list A) (b : list B) : length a = length b -> map fst (combine a b) = a.
+Proof.
+  revert b. induction a as [|x a IH]; intros [|y b] L; simpl in *; try discriminate; [reflexivity|].
+  f_equal. apply IH. lia.
+Qed.
+
+Lemma nth_map_firstn {A} m (l : list (list A)) i : nth i (map (firstn m) l) [] = firstn m (nth i l []).
+Proof.
+  transitivity (nth i (map (firstn m) l) (firstn m [])).
+  - f_equal. symmetry. apply firstn_nil.
+  - apply map_nth.
+Qed.
+
+Theorem cli_head_spec n m rt ss rows : wf_r rt -> cli_head n m rt = ROk (ss, rows) ->
+  (0 < n)%Z /\ (0 < m)%Z /\
+  ss = firstn (Z.to_nat m) (r_sids rt) /\ map fst rows = firstn (Z.to_nat n) (r_oids rt) /\
+  forall i j, i < Nat.min (Z.to_nat n) (r_nobs rt) -> j < Z.to_nat m ->
+    nth j (snd (nth i rows (0%Z, []))) 0%Z = get (dense rt) i j.
+Proof.
+  intros W H. destruct (dense_shape rt W) as [LD _]. unfold cli_head in H.
+  destruct ((n <=? 0)%Z || (m <=? 0)%Z) eqn:E; [discriminate|].
+  apply orb_false_iff in E. destruct E as [E1 E2]. apply Z.leb_gt in E1. apply Z.leb_gt in E2.
+  destruct (r_empty rt); [discriminate|]. inversion H; subst ss rows; clear H.
+  assert (LL : length (firstn (Z.to_nat n) (r_oids rt)) =
+               length (map (firstn (Z.to_nat m)) (firstn (Z.to_nat n) (dense rt)))).
+  { rewrite map_length, !firstn_length, LD. reflexivity. }
+  repeat split; try assumption.
+  - apply map_fst_combine. exact LL.
+  - intros i j Hi Hj. rewrite (combine_nth _ _ i 0%Z [] LL). simpl.
+    rewrite nth_map_firstn.
+    rewrite (nth_firstn _ (Z.to_nat m) j) by exact Hj. rewrite (nth_firstn _ (Z.to_nat n) i) by lia. reflexivity.
+Qed.
+
+Theorem cli_head_refuses n m rt : (n <= 0)%Z \/ (m <= 0)%Z -> cli_head n m rt = RErr E_VALUE.
+Proof.
+  intros H. unfold cli_head. replace ((n <=? 0)%Z || (m <=? 0)%Z) with true; [reflexivity|].
+  symmetry. apply orb_true_iff. destruct H as [H|H]; [left|right]; apply Z.leb_le; exact H.
+Qed.
+
+(* ------------------------------------------------------------------ to_dataframe *)
+Lemma nth_map_seq {A} (F : nat -> A) n i d : i < n -> nth i (map F (seq 0 n)) d = F i.
+Proof.
+  intros H. rewrite (nth_indep _ d (F 0)) by (rewrite map_length, seq_length; exact H).
+  rewrite map_nth, seq_nth by exact H. reflexivity.
+Qed.
+
+Lemma dense_cell rt i j : wf_r rt -> i < r_nobs rt -> j < r_nsamp rt ->
+  get (dense rt) i j = match r_fmt rt with
+                       | CSR => lookup j (nth i (r_segs rt) [])
+                       | CSC => lookup i (nth j (r_segs rt) [])
+                       end.
+Proof.
+  intros W Hi Hj. destruct (wf_dims rt W) as [_ D]. unfold dense. destruct (r_fmt rt); destruct D as [D1 D2].
+  - apply get_dense; lia.
+  - rewrite get_transpose by lia. apply get_dense; lia.
+Qed.
+
+Theorem df_sparse_cells rt i j : wf_r rt -> i < r_nobs rt -> j < r_nsamp rt ->
+  match nth j (nth i (df_sparse rt) []) None with
+  | Some v => get (dense rt) i j = v
+  | None => get (dense rt) i j = 0%Z
+  end.
+Proof.
+  intros W Hi Hj. rewrite (dense_cell rt i j W Hi Hj). unfold df_sparse.
+  rewrite nth_map_seq by exact Hi. rewrite nth_map_seq by exact Hj.
+  unfold lookup. destruct (r_fmt rt).
+  - destruct (find_idx j (nth i (r_segs rt) [])); reflexivity.
+  - destruct (find_idx i (nth j (r_segs rt) [])); reflexivity.
+Qed.
+
+Theorem df_sparse_missing_iff rt i j : wf_r rt -> nz_segs (r_segs rt) -> i < r_nobs rt -> j < r_nsamp rt ->
+  (nth j (nth i (df_sparse rt) []) None = None <-> get (dense rt) i j = 0%Z).
+Proof.
+  intros W N Hi Hj. pose proof (df_sparse_cells rt i j W Hi Hj) as C.
+  destruct (wf_dims rt W) as [_ D].
+  unfold df_sparse in *. rewrite nth_map_seq in * by exact Hi. rewrite nth_map_seq in * by exact Hj.
+  unfold nz_segs in N. rewrite Forall_forall in N.
+  destruct (r_fmt rt); destruct D as [D1 D2].
+  - destruct (find_idx j (nth i (r_segs rt) [])) as [v|] eqn:E; [|tauto].
+    split; [discriminate|]. intros Hz. exfalso. apply find_idx_In in E.
+    assert (Hs : In (nth i (r_segs rt) []) (r_segs rt)) by (apply nth_In; lia).
+    specialize (N _ Hs). rewrite Forall_forall in N. apply (N _ E). simpl. congruence.
+  - destruct (find_idx i (nth j (r_segs rt) [])) as [v|] eqn:E; [|tauto].
+    split; [discriminate|]. intros Hz. exfalso. apply find_idx_In in E.
+    assert (Hs : In (nth j (r_segs rt) []) (r_segs rt)) by (apply nth_In; lia).
+    specialize (N _ Hs). rewrite Forall_forall in N. apply (N _ E). simpl. congruence.
+Qed.
+
+(* ------------------------------------------------------------------ metadata_to_dataframe *)
+Definition no_seq (md : list Tree) : Prop :=
+  Forall (fun e => Forall (fun kv => is_seq (kv_val kv) = false) (tL e)) md.
+Definition zero_widths (w : list (Tree * nat)) : Prop := Forall (fun kn => snd kn = 0) w.
+
+Lemma wset_zero k w : zero_widths w -> zero_widths (wset k 0 w).
+Proof.
+  unfold zero_widths. induction w as [|[k' n'] w IH]; simpl; intros H.
+  - constructor; [reflexivity|constructor].
+  - inversion H as [|? ? H1 H2]; subst. simpl in H1. destruct (tree_eqb k k').
+    + constructor; [simpl; lia|exact H2].
+    + constructor; [exact H1|apply IH; exact H2].
+Qed.
+
+Lemma widths_entry_zero kvs : Forall (fun kv => is_seq (kv_val kv) = false) kvs -> forall w,
+  zero_widths w -> zero_widths (fold_left (fun w kv => wset (kv_key kv) (kv_width kv) w) kvs w).
+Proof.
+  induction kvs as [|kv kvs IH]; intros F w Hw; simpl; [exact Hw|].
+  inversion F as [|? ? F1 F2]; subst. apply IH; [exact F2|].
+  unfold kv_width. rewrite F1. apply wset_zero. exact Hw.
+Qed.
+
+Lemma widths_zero md : no_seq md -> zero_widths (widths md).
+Proof.
+  unfold widths. intros F. assert (G : zero_widths []) by constructor. revert G. generalize (@nil (Tree * nat)).
+  induction md as [|e md IH]; intros w Hw; simpl; [exact Hw|].
+  inversion F as [|? ? F1 F2]; subst. apply IH; [exact F2|]. apply widths_entry_zero; assumption.
+Qed.
+
+Lemma flat_map_zero_cols w : zero_widths w -> flat_map key_columns w = map (fun kn => L [fst kn]) w.
+Proof.
+  induction w as [|[k n] w IH]; simpl; intros H; [reflexivity|].
+  inversion H as [|? ? H1 H2]; subst. simpl in H1. subst n. simpl. f_equal. apply IH. exact H2.
+Qed.
+
+Lemma flat_map_zero_cells e w : zero_widths w -> flat_map (key_cells e) w = map (fun kn => md_get (fst kn) e) w.
+Proof.
+  induction w as [|[k n] w IH]; simpl; intros H; [reflexivity|].
+  inversion H as [|? ? H1 H2]; subst. simpl in H1. subst n. simpl. f_equal. apply IH. exact H2.
+Qed.
+
+(* scalar metadata: one column per key, every cell is the value found under THAT key for THAT id *)
+Theorem md_export_by_key ids md : no_seq md ->
+  md_df ids (Some md) =
+  ROk (map (fun k => L [k]) (map fst (widths md)), combine ids (d_md_rows (map fst (widths md)) md)).
+Proof.
+  intros F. pose proof (widths_zero md F) as Z0. unfold md_df, d_md_rows.
+  rewrite (flat_map_zero_cols _ Z0), map_map. do 3 f_equal.
+  apply map_ext. intros e. rewrite (flat_map_zero_cells e _ Z0), map_map. reflexivity.
+Qed.
+
+(* every key of every id has its column *)
+Lemma wset_has_key k n w : In k (map fst (wset k n w)).
+Proof.
+  induction w as [|[k' n'] w IH]; simpl; [left; reflexivity|].
+  destruct (tree_eqb k k') eqn:E; simpl.
+  - apply tree_eqb_eq in E. left. symmetry. exact E.
+  - right. exact IH.
+Qed.
+
+Lemma wset_keeps k n w k0 : In k0 (map fst w) -> In k0 (map fst (wset k n w)).
+Proof.
+  induction w as [|[k' n'] w IH]; simpl; [intros []|].
+  intros [H|H]; destruct (tree_eqb k k'); simpl; auto.
+Qed.
+
+Lemma widths_entry_keys kvs k0 : forall w,
+  In k0 (map fst w) \/ In k0 (map kv_key kvs) ->
+  In k0 (map fst (fold_left (fun w kv => wset (kv_key kv) (kv_width kv) w) kvs w)).
+Proof.
+  induction kvs as [|kv kvs IH]; intros w H; simpl.
+  - destruct H as [H|[]]. exact H.
+  - apply IH. destruct H as [H|[H|H]].
+    + left. apply wset_keeps. exact H.
+    + left. subst. apply wset_has_key.
+    + right. exact H.
+Qed.
+
+Theorem widths_complete md e kv : In e md -> In kv (tL e) -> In (kv_key kv) (map fst (widths md)).
+Proof.
+  unfold widths. generalize (@nil (Tree * nat)). induction md as [|e0 md IH]; intros w He Hkv; [contradiction|].
+  simpl. destruct He as [He|He].
+  - subst e0. clear IH.
+    assert (G : In (kv_key kv) (map fst (fold_left (fun w kv => wset (kv_key kv) (kv_width kv) w) (tL e) w))).
+    { apply widths_entry_keys. right. apply in_map. exact Hkv. }
+    revert G. generalize (fold_left (fun w kv => wset (kv_key kv) (kv_width kv) w) (tL e) w).
+    induction md as [|e1 md IH]; intros w1 G; simpl; [exact G|].
+    apply IH. apply widths_entry_keys. left. exact G.
+  - apply IH; assumption.
+Qed.
+
+(* ------------------------------------------------------------------ from the array view (Sparse.cs) *)
+Lemma In_firstn {A} (x : A) n l : In x (firstn n l) -> In x l.
+Proof.
+  revert n. induction l as [|y l IH]; intros n H; [rewrite firstn_nil in H; exact H|].
+  destruct n as [|n]; [contradiction|]. simpl in H. destruct H as [H|H]; [left; exact H|right; apply (IH n); exact H].
+Qed.
+
+Lemma In_skipn {A} (x : A) n l : In x (skipn n l) -> In x l.
+Proof.
+  revert n. induction l as [|y l IH]; intros n H; [rewrite skipn_nil in H; exact H|].
+  destruct n as [|n]; [exact H|]. right. apply (IH n). exact H.
+Qed.
+
+Lemma In_seg r i e : In e (seg r i) -> In (fst e) (indices r) /\ In (snd e) (data r).
+Proof.
+  unfold seg, entries. intros H. apply In_firstn in H. apply In_skipn in H. destruct e as [k v]. simpl.
+  split; [eapply in_combine_l|eapply in_combine_r]; exact H.
+Qed.
+
+Lemma wf_cs_segs r : wf_cs r -> Forall (seg_ok (minor r)) (segs r) /\ length (segs r) = major r.
+Proof.
+  intros (_ & _ & _ & _ & _ & Hb & Hn). split.
+  - apply Forall_forall. intros s Hs. split.
+    + rewrite Forall_forall in Hn. apply Hn. exact Hs.
+    + unfold segs in Hs. apply in_map_iff in Hs. destruct Hs as [i [E _]]. subst s.
+      apply Forall_forall. intros e He. apply In_seg in He. rewrite Forall_forall in Hb. apply Hb. tauto.
+  - unfold segs. rewrite map_length, seq_length. reflexivity.
+Qed.
+
+Lemma no_stored_zero_segs r : no_stored_zero r -> nz_segs (segs r).
+Proof.
+  unfold no_stored_zero, nz_segs. intros H. apply Forall_forall. intros s Hs.
+  unfold segs in Hs. apply in_map_iff in Hs. destruct Hs as [i [E _]]. subst s.
+  apply Forall_forall. intros e He. apply In_seg in He. rewrite Forall_forall in H. apply H. tauto.
+Qed.
+
+Definition wf_table_cs (oids sids : list Z) (f : fmt) (r : cs) (omd smd : option (list Tree)) : Prop :=
+  NoDup oids /\ NoDup sids /\ wf_cs r /\
+  match f with
+  | CSR => major r = length oids /\ minor r = length sids
+  | CSC => major r = length sids /\ minor r = length oids
+  end /\ md_ok omd (length oids) /\ md_ok smd (length sids).
+
+Theorem of_cs_wf oids sids f r omd smd :
+  wf_table_cs oids sids f r omd smd -> wf_r (of_cs oids sids f r omd smd).
+Proof.
+  intros (A & B & C & D & E & F). destruct (wf_cs_segs r C) as [S L].
+  unfold wf_r, of_cs, dims_ok, r_nobs, r_nsamp; simpl. repeat split; try assumption.
+  destruct f; destruct D as [D1 D2]; rewrite L; split; assumption.
+Qed.
+
+Theorem of_cs_dense oids sids f r omd smd : dense (of_cs oids sids f r omd smd) = matrix_of f r.
+Proof. unfold dense, of_cs, matrix_of, dense_of; simpl. destruct f; reflexivity. Qed.
+
+(* ------------------------------------------------------------------ boolean well-formedness (for the examples) *)
+Lemma nmem_In x l : nmem x l = true <-> In x l.
+Proof.
+  unfold nmem. rewrite existsb_exists. split.
+  - intros [y [Hy He]]. apply Nat.eqb_eq in He. subst. exact Hy.
+  - intros H. exists x. split; [exact H|apply Nat.eqb_refl].
+Qed.
+
+Lemma ndup_false_NoDup l : ndup l = false <-> NoDup l.
+Proof.
+  induction l as [|x t IH]; simpl.
+  - split; [constructor|reflexivity].
+  - rewrite orb_false_iff. split.
+    + intros [A B]. constructor; [|apply IH; exact B]. intros Hin. apply nmem_In in Hin. congruence.
+    + intros H. inversion H as [|? ? Hn Hd]; subst. split; [|apply IH; exact Hd].
+      destruct (nmem x t) eqn:E; [|reflexivity]. apply nmem_In in E. contradiction.
+Qed.
+
+Lemma seg_okb_ok mn s : seg_okb mn s = true <-> seg_ok mn s.
+Proof.
+  unfold seg_okb, seg_ok. rewrite andb_true_iff, negb_true_iff, ndup_false_NoDup, forallb_forall, Forall_forall.
+  split; intros [A B]; (split; [exact A|]); intros e He; specialize (B e He); apply Nat.ltb_lt; exact B.
+Qed.
+
+Lemma wf_rb_wf rt : wf_rb rt = true -> wf_r rt.
+Proof.
+  unfold wf_rb, wf_r, dims_ok. rewrite !andb_true_iff, !negb_true_iff, !zdup_false_NoDup, !md_okb_ok.
+  intros (((((A & B) & C) & D) & E) & F). repeat split; try assumption.
+  - destruct (r_fmt rt); apply andb_true_iff in C; destruct C as [C1 C2];
+      apply Nat.eqb_eq in C1; apply Nat.eqb_eq in C2; split; assumption.
+  - apply Forall_forall. intros s Hs. apply seg_okb_ok. rewrite forallb_forall in D. apply D. exact Hs.
+Qed.
+
+Lemma nz_segsb_nz ss : nz_segsb ss = true -> nz_segs ss.
+Proof.
+  unfold nz_segsb, nz_segs. rewrite forallb_forall. intros H. apply Forall_forall. intros s Hs.
+  specialize (H s Hs). rewrite forallb_forall in H. apply Forall_forall. intros e He. specialize (H e He).
+  unfold nzb in H. apply negb_true_iff in H. apply Z.eqb_neq in H. exact H.
+Qed.
